@@ -1,3 +1,5 @@
+import operator
+
 import numpy as np
 from scipy.special import eval_jacobi
 
@@ -382,6 +384,10 @@ def zernike_index(j):
         Azimuthal Zernike index.
 
     """
+    # a python integer whatever integer type the index arrives in (an unsigned
+    # 64 bit numpy scalar turns the arithmetic below into floating point)
+    j = operator.index(j)
+
     if j < 1:
         raise ValueError('Zernike index j must be a positive integer')
 
